@@ -9,11 +9,11 @@ NO_OVF = [c for c in DEFAULT_CHECKS if c != '--signed-overflow-check'] + ['--no-
 STEP_RULES = [
     # the while condition and locals of Xml::decode become parameters / ghost state of the step
     (r'elems\.push\(Xml\(b\)\);', 'XE_PUSH();', None),
-    (r'Xml e = elems\.popget\(\);\s*elems\.top\(\) << e;', 'XE_POPGET(); XE_TOP_USE();', None),
-    (r'elems\.top\(\) << XmlText\(b\);', 'XE_TOP_USE();', None), (r'elems\.top\(\)\.setAttr\(atname, b\);', 'XE_TOP_USE();', None),
+    (r'Xml e = elems\.popget\(\);\s*elems\.top\(\) << e;', 'XE_POPGET(); XE_TOP_APPEND_XML();', None),
+    (r'elems\.top\(\) << XmlText\(b\);', 'XE_TOP_APPEND_XML();', None), (r'elems\.top\(\) << b;', 'XE_TOP_APPEND_STRING();', None), (r'elems\.top\(\)\.setAttr\(atname, b\);', 'XE_TOP_USE();', None),
     (r'b != elems\.top\(\)\.tag\(\)', 'XE_TOP_TAG_DIFFERS()', None), (r'elems\.length\(\)', 'g_ed', None),
     (r'return Xml\(\);', '{ g_null = 1; return; }', None),
-    (r'for \(int i = 0; i < b\.length\(\); i\+\+\)\s*if \(b\[i\] != \' \' && b\[i\] != \'\\n\' && b\[i\] != \'\\r\' && b\[i\] != \'\\t\'\) \{\s*XE_TOP_USE\(\);\s*break;\s*\}', 'if (nondet_bool()) XE_TOP_USE();', None),
+    (r'for \(int i = 0; i < b\.length\(\); i\+\+\)\s*if \(b\[i\] != \' \' && b\[i\] != \'\\n\' && b\[i\] != \'\\r\' && b\[i\] != \'\\t\'\) \{\s*(XE_TOP_APPEND_\w+\(\);)\s*break;\s*\}', r'if (nondet_bool()) \1', None),
     (r'int code = \(ref\[1\] == \'x\'\) \? \(int\)ref\.substring\(2\)\.hexToInt\(\) : \(int\)ref\.substring\(1\);', 'int code = REF_CODE();', None),
     (r'b << entities\.get\(ref, \'\?\'\);', 'B_APPEND(REF_ENTITY());', None), (r'b << bytes;', 'B_APPEND_STR(bytes);', None),
     (r'\*\(p - 2\)', 'g_prev', None), (r'myisalpha\(b\[0\]\)', 'myisalpha(g_b0)', None), (r'b\.length\(\)', 'g_blen', None),
@@ -22,11 +22,20 @@ STEP_RULES = [
     (r'(?<![\w.>])state\b', 'XS->state', None), (r'(?<![\w.>])lastState\b', 'XS->lastState', None), (r'\banglecount\b', 'XS->anglecount', None),
 ]
 
+XH = 'include/asl/Xml.h'
+# what the two overloads of Xml::operator<< do to the child list and to the child's parent link (counted: g_children / g_parented), from their real bodies
+def append_cuts():
+    link = [(r'(\w+)\._\(\)->parent = _\(\);', 'g_parented++;', None), (r'(\w+)->parent = [^;]*;', 'g_parented++;', None), (r'return \*this;', 'return;', None)]
+    return [Cut('append_xml', XH, r'^\tXml& operator<<\(const Xml& e\)\s*$', rules=[(r'_\(\)->children << e;', 'g_children++;', 1)] + link),
+            Cut('append_string', XM, r'^Xml& Xml::operator<<\(const String& t\)\s*$',
+                rules=[(r'_Xml\* e = _\(\);', '', 1), (r'e->children\.length\(\) > 0 && e->children\.last\(\)\.isText\(\)', 'nondet_bool()', 1),
+                       (r'e->children\.last\(\)\.as<XmlText>\(\)\.append\(t\);', ';', 1), (r'e->children << XmlText\(t\);', 'g_children++;   /* a new text node appended to the Array of children */', 1)] + link)]
+
 def xml_cuts():
     return [Cut('states', XM, r'^\tenum State \{\s*$', kind='stmt', rules=[(r'^\tenum State', 'enum XState', 1)]),
             Cut('isspace', 'include/asl/defs.h', r'^inline bool myisspace\(char c\)\s*$'),
             Cut('utf32toUtf8', S, r'^int utf32toUtf8\(const int\* p, char\* u, int n\)\s*$'),
-            Cut('step', XM, r'^\twhile \(char c = \*p\+\+\)\s*$', rules=STEP_RULES)]
+            Cut('step', XM, r'^\twhile \(char c = \*p\+\+\)\s*$', rules=STEP_RULES)] + append_cuts()
 
 XML_C = r'''
 #include "vf_base.h"
@@ -45,6 +54,11 @@ static int utf32toUtf8(const int* p, char* u, int n) @@utf32toUtf8@@
 static void XE_PUSH(void) { g_ed++; }
 static void XE_POPGET(void) { __CPROVER_assert(g_ed >= 1, "Stack::popget on an empty element stack"); g_ed--; }
 static void XE_TOP_USE(void) { __CPROVER_assert(g_ed >= 1, "Stack::top on an empty element stack"); }
+int g_children, g_parented;     /* children added to some element / parent links set, in this step */
+static void Xml_append_xml(void) @@append_xml@@
+static void Xml_append_string(void) @@append_string@@
+static void XE_TOP_APPEND_XML(void) { XE_TOP_USE(); Xml_append_xml(); }          /* elems.top() << <an Xml> */
+static void XE_TOP_APPEND_STRING(void) { XE_TOP_USE(); Xml_append_string(); }    /* elems.top() << <a String> */
 /* b != elems.top().tag(): the root's tag is empty, every other tag is not; equal lengths may or may not mean equal text */
 static bool XE_TOP_TAG_DIFFERS(void) { __CPROVER_assert(g_ed >= 1, "Stack::top on an empty element stack"); if (g_ed == 1) return g_blen != 0; if (g_blen == 0) return true; return nondet_bool(); }
 static void B_CLEAR(void) { g_blen = 0; }
@@ -80,18 +94,20 @@ step_safety = Unit(
     cuts=[c for c in xml_cuts() if c.name != 'step'] + [step_cut()],
     text=XML_C + r'''
 void vf_step(XmlState* XS, char c)
-__CPROVER_requires(__CPROVER_is_fresh(XS, sizeof(XmlState)) && c != 0 && INV(XS) && g_null == 0 && g_ed < 1000000 && g_blen < 1000000 && g_reflen < 1000000)
+__CPROVER_requires(__CPROVER_is_fresh(XS, sizeof(XmlState)) && c != 0 && INV(XS) && g_null == 0 && g_children == 0 && g_parented == 0 && g_ed < 1000000 && g_blen < 1000000 && g_reflen < 1000000)
 /* for ANY byte in ANY configuration satisfying the invariant: the element stack never underflows (closing more than was opened),
    the scratch buffer of a character reference is large enough for every code, the invariant is re-established (or the document is rejected) */
 __CPROVER_ensures(g_null || INV(XS))
-__CPROVER_assigns(*XS, g_ed, g_blen, g_reflen, g_null, g_b0, g_blast, g_ref)
+/* every node the step adds to an element (a closed child element, a text node) gets its parent link: parent() of each child is the element that contains it */
+__CPROVER_ensures(g_children == g_parented)
+__CPROVER_assigns(*XS, g_ed, g_blen, g_reflen, g_null, g_b0, g_blast, g_ref, g_children, g_parented)
 { Xml_step(XS, c); }
 void vf_harness(void) { XmlState* s; char c; vf_step(s, c); VF_CANARY(); }
 ''',
     entry='vf_step', unwind=8, timeout=600, checks=NO_OVF,
     desc='one step of Xml::decode for EVERY byte and EVERY configuration satisfying the invariant: element stack never underflows, character-reference buffer (bytes[5]) suffices for every 32-bit code, invariant preserved; '
          'by induction total and memory-safe on any byte string',
-    functions=['Xml::decode (loop body)'],
+    functions=['Xml::decode (loop body)', 'Xml::operator<<(const Xml&)', 'Xml::operator<<(const String&)'],
     trusted=['Stack<Xml> modelled by its depth with the C01 top/pop preconditions; Strings b/ref by length + first characters; tag comparison abstracted (root tag empty, others non-empty)'],
 )
 
@@ -129,3 +145,63 @@ void vf_harness(void) {
     functions=['XmlCodec::escape (per character)', 'Xml::decode (FREE/ATT_VAL/REF_START/CHAR_REF states)'],
 )
 UNITS = [step_safety, escape_lemma]
+
+# ---- XmlCodec::encode(e): the element structure it writes.  Output is abstracted to events; the recursion to "child i is encoded" (ghost index g_k);
+# attribute writing (escape() per value: unit xml_escape_roundtrip) is cut out as a region.
+ENC_RULES = [
+    (r'const Map<>& attribs = e\.attribs\(\);\s*if \(attribs\.length\(\) > 0\)\s*\{.*?\n\t\}\n', 'OUT_ATTRIBS();\n', 1),
+    (r'e\.isnull\(\) \|\| \(!e && !e\.isText\(\)\)', 'g_isnull', 1), (r'escape\(e\.text\(\)\);', 'OUT_TEXT();', 1),
+    (r"_xml << '<' << e\.tag\(\);", 'OUT_OPEN();', 1), (r'_xml << "/>";', 'OUT_SELFCLOSE();', None), (r"_xml << '>';", 'OUT_GT();', None),
+    (r"_xml << \"</\" << e\.tag\(\) << '>';", 'OUT_ENDTAG();', None), (r"_xml << '\\n';", 'OUT_NL();', None), (r'_xml << INDENT_CHAR;', 'OUT_INDENT();', None),
+    (r'encode\(e\.child\((\w+)\)\);', r'ENC_CHILD(\1);', None), (r'e\.child\((\w+)\)\.isText\(\)', r'CHILD_ISTEXT(\1)', None), (r'e\.children\(\)\.last\(\)\.isText\(\)', 'CHILD_ISTEXT(g_nch - 1)', None),
+    (r'e\.text\(\)\.ok\(\)', 'nondet_bool()', None), (r'e\.isText\(\)', 'g_istext', None), (r'e\.numChildren\(\)', 'g_nch', None),
+    (r'\b_formatted\b', 'g_formatted', None), (r'\b_level\b', 'g_level', None),
+    (r'for \(int i = 0; i < g_level; i\+\+\)\s*OUT_INDENT\(\);', 'OUT_INDENT_N(g_level);', None),   # indentation: g_level copies of INDENT_CHAR
+]
+encode_unit = Unit(
+    'XmlCodec_encode_element', 'C07',
+    cuts=[Cut('enc', XM, r'^void XmlCodec::encode\(const Xml& e\)\s*$', rules=ENC_RULES,
+              loops=[(r'for \(int i = 0; i < g_nch; i\+\+\)\s*ENC_CHILD', 0, '''
+  __CPROVER_assigns(i, g_calls, g_enc_k, g_order_ok)
+  __CPROVER_loop_invariant(0 <= i && i <= g_nch && g_calls == i && g_enc_k == (i > g_k ? 1 : 0) && g_order_ok)
+  __CPROVER_decreases(g_nch - i)
+''', [])])],
+    text=r'''
+#include "vf_base.h"
+bool nondet_bool(void);
+int g_k;
+bool g_isnull, g_istext, g_formatted; int g_nch, g_level;
+int g_open, g_selfclose, g_gt, g_endtag, g_text, g_attribs, g_calls, g_enc_k, g_order_ok, g_gt_before_children, g_end_after_children;
+static void OUT_OPEN(void) { g_open++; }
+static void OUT_ATTRIBS(void) { __CPROVER_assert(g_open == 1 && g_gt == 0 && g_selfclose == 0, "attributes go inside the start tag"); g_attribs++; }
+static void OUT_SELFCLOSE(void) { g_selfclose++; }
+static void OUT_GT(void) { g_gt++; }
+static void OUT_ENDTAG(void) { g_endtag++; g_end_after_children = (g_calls == g_nch); }
+static void OUT_TEXT(void) { g_text++; }
+static void OUT_NL(void) {} static void OUT_INDENT(void) {} static void OUT_INDENT_N(int n) {}
+static bool CHILD_ISTEXT(int i) { __CPROVER_assert(0 <= i && i < g_nch, "Xml::child(i): index below numChildren"); return nondet_bool(); }
+/* encode(e.child(i)): the recursive call (this same contract) */
+static void ENC_CHILD(int i) { __CPROVER_assert(0 <= i && i < g_nch, "Xml::child(i): index below numChildren"); if (i != g_calls || g_gt != 1 || g_endtag != 0 || g_selfclose != 0) g_order_ok = 0; if (i == g_k) g_enc_k++; g_calls++; }
+void XmlCodec_encode(void)
+__CPROVER_requires(0 <= g_nch && g_nch <= 1000000 && 0 <= g_level && g_level <= 1000000 && 0 <= g_k && g_k < g_nch + 1)
+__CPROVER_requires(g_open == 0 && g_selfclose == 0 && g_gt == 0 && g_endtag == 0 && g_text == 0 && g_attribs == 0 && g_calls == 0 && g_enc_k == 0 && g_order_ok == 1)
+/* a text node: its escaped text and nothing else */
+__CPROVER_ensures((!g_isnull && g_istext) ==> (g_text == 1 && g_open == 0 && g_calls == 0))
+/* an element without children: <tag attrs/>;  with children: <tag attrs> then EVERY child, each once, in order, then </tag> - no child is dropped whatever the first child is */
+__CPROVER_ensures((!g_isnull && !g_istext && g_nch == 0) ==> (g_open == 1 && g_attribs == 1 && g_selfclose == 1 && g_gt == 0 && g_endtag == 0 && g_calls == 0))
+__CPROVER_ensures((!g_isnull && !g_istext && g_nch > 0) ==> (g_open == 1 && g_attribs == 1 && g_selfclose == 0 && g_gt == 1 && g_endtag == 1 && g_calls == g_nch && g_order_ok && g_end_after_children))
+__CPROVER_ensures((!g_isnull && !g_istext && g_k < g_nch) ==> g_enc_k == 1)
+__CPROVER_ensures(g_isnull ==> (g_open == 0 && g_text == 0 && g_calls == 0))
+__CPROVER_ensures(g_level == __CPROVER_old(g_level))
+__CPROVER_assigns(g_level, g_open, g_selfclose, g_gt, g_endtag, g_text, g_attribs, g_calls, g_enc_k, g_order_ok, g_end_after_children)
+@@enc@@
+void vf_harness(void) { XmlCodec_encode(); VF_CANARY(); }
+''',
+    entry='XmlCodec_encode', unwind=None,
+    desc='XmlCodec::encode for an element with ANY number of children: <tag/> only when there are none, otherwise start tag, every child exactly once and in order (recursive calls), end tag; '
+         'text nodes are written escaped; child indices in range; nesting level restored',
+    functions=['XmlCodec::encode'],
+    trusted=['output stream abstracted to events; attribute block cut out (R18); the recursive call is this contract'],
+    planted=[('enc', r'if \(g_nch == 0\)', 'if (g_nch == 0 || (CHILD_ISTEXT(0) && nondet_bool()))')],
+)
+UNITS += [encode_unit]
